@@ -70,6 +70,7 @@ LunaticGenuine(ch, h, cht) ==
 LunaticMuts(ch, g) ==
   LET cv == ValsAt(ch, g.h)
       last == CHOOSE n \in DOMAIN cv : \A m \in DOMAIN cv : NameIdx(ch, n) >= NameIdx(ch, m)
+      low  == CHOOSE n \in DOMAIN cv : \A m \in DOMAIN cv : cv[n] < cv[m] \/ (cv[n] = cv[m] /\ NameIdx(ch, n) <= NameIdx(ch, m))
       M(m, r, own) == [r EXCEPT !.mut = m, !.key = IF own THEN m ELSE "genuine"]
   IN << M("genuine", g, FALSE),
         M("total", [g EXCEPT !.total = @ + 1], FALSE),
@@ -81,6 +82,10 @@ LunaticMuts(ch, g) ==
         M("samehash", [g EXCEPT !.derive = "same", !.cvals = ValsAt(ch, g.ch),
                                 !.signers = Names(ch, DOMAIN ValsAt(ch, g.ch))], TRUE),
         M("nocommon", [g EXCEPT !.cvals = (Phantom :> 1), !.signers = <<Phantom>>, !.byz = << >>], TRUE),
+        \* backed by the weakest common validator only (<= 1/3 of the common set unless the set is tiny)
+        M("weakcommon", [g EXCEPT !.cvals = (low :> cv[low]) @@ (Phantom :> 2 * Total(cv) + 5),
+                                  !.signers = Names(ch, {low, Phantom}),
+                                  !.byz = <<[n |-> low, p |-> cv[low]]>>], TRUE),
         M("selfweak", [g EXCEPT !.cvals = cv @@ (Phantom :> 2 * Total(cv) + 5),
                                 !.signers = Names(ch, DOMAIN cv)], TRUE) >>
      \o (IF Len(g.byz) >= 2 THEN << M("byzorder", [g EXCEPT !.byz = <<g.byz[2], g.byz[1]>> \o SubSeq(g.byz, 3, Len(g.byz))], FALSE) >> ELSE << >>)
